@@ -1,7 +1,7 @@
 """C12 -- accountants are monotone and invariant to history order and run splitting (proof, partial)."""
 from py import vlib
 
-GENS = ['Rdp', 'Optim']
+GENS = ['Rdp', 'Optim', 'Prv']
 RULE = ('metamorphic pairs on the real rdp / prv / gdp accountants: permutations, splitting / merging runs, one-by-one vs run-length recording, '
         '+steps, +sample rate, +sigma, +delta, q = 1 vs the Gaussian closed form, CLI script vs RDP accountant; tolerance = 1e-9 relative for rdp/gdp, '
         "the accountant's own eps_error for prv; non-trivial = the two histories differ; distinct by canonical JSON")
@@ -44,6 +44,12 @@ def gen(ctx, n):
             c['d2'] = d * 10
         c['h2'] = h2
         cases.append(c)
+    # prv, strongly heterogeneous histories: a heavy run and a light tail, in both orders, and the tail appended (epsilon must not drop)
+    for _ in range(max(2, n // 60)):
+        main = [r.choice([0.8, 1.5]), 0.05, r.choice([300, 1000])]
+        tail = [3.0, 0.001, r.randint(5, 20)]
+        cases.append({'acc': 'prv', 'h1': [main, tail], 'h2': [tail, main], 'd1': 1e-5, 'd2': 1e-5, 'mm': 'perm', 'kind': 'pair'})
+        cases.append({'acc': 'prv', 'h1': [main], 'h2': [main, tail], 'd1': 1e-5, 'd2': 1e-5, 'mm': 'steps', 'kind': 'pair'})
     for _ in range(max(3, n // 15)):
         q = r.choice([0.01, 0.04, 0.1])
         cases.append({'kind': 'cli', 'acc': 'rdp', 'q': q, 's': r.choice([0.8, 1.1, 2.0]), 'n': r.randint(10, 500), 'epochs': r.randint(1, 5), 'd1': 1e-5, 'mm': 'cli'})
